@@ -268,7 +268,7 @@ def _norm_desc(desc):
     for o in d.split(" , "):
         alts = [a.strip() for a in o.split(" | ")]
         # a loop-carried accumulator (`const 0 | op`), an anonymous closure parameter or an unnamed local: all "some running value"
-        if any(a == "op" or a.startswith("local") or re.match(r"param _\d+", a) for a in alts):
+        if any(a == "op" or a.startswith("local") or re.match(r"param _\d+", a) or re.search(r"as core::iter::traits::iterator::Iterator>::next", a) for a in alts):
             ops.append("*")
         else:
             ops.append(" | ".join(alts))
@@ -281,13 +281,23 @@ def _moved_row(table, s, live_keys, used):
     fid, kind, desc = s["key"].split(" | ", 2)
     f = s["fn"].file
     nd = _norm_desc(desc)
+    loose = None
     for k, row in table.items():
         if k in live_keys or k in used or row.get("file") != f:
             continue
         parts = k.split(" | ", 2)
-        if len(parts) == 3 and parts[1] == kind and _norm_desc(parts[2]) == nd:
+        if len(parts) != 3 or parts[1] != kind:
+            continue
+        od = _norm_desc(parts[2])
+        if od == nd:
             return k
-    return None
+        # loop <-> closure: the item of the iteration is a closure parameter in one form and a next() result in the other
+        a, b = od.split(" , "), nd.split(" , ")
+        closure_side = "{closure" in parts[0] or "{closure" in fid
+        if closure_side and len(a) == len(b) and all(x == y or x == "*" or y == "*" or (x.startswith("param ") and y == "*") or (y.startswith("param ") and x == "*") for x, y in zip(a, b)) \
+                and any(x == y and x != "*" for x, y in zip(a, b)):
+            loose = loose or k
+    return loose
 
 
 def load_table():
@@ -538,22 +548,29 @@ def g_transform_keys(ctx):
     go = [c for c in f.calls if c.name == "get_transform_order"]
     if not go:
         return False, "get_transform_order not called"
-    from ..query import closure_consumer
-    for g in prog.closures_of(f):
-        idx = [c for c in g.calls if c.name == "index" and "HashMap" in c.best]
-        if not idx:
-            continue
-        cons = closure_consumer(prog, g)
-        if not cons:
-            continue
-        pf, pc, ai = cons
-        src = deep_roots(prog, pf, pc.args[0], TRANSPARENT | {"into_iter", "map_err"})
-        from_order = any(o.kind == "call" and o.ref is go[0] for o in src)
-        m1 = {(ff.id, o.kind, o.ref if o.kind != "call" else id(o.ref)) for ff, o in ultimate_roots(prog, g, idx[0].args[0])}
-        m2 = {(f.id, o.kind, o.ref if o.kind != "call" else id(o.ref)) for o in deep_roots(prog, f, go[0].args[1])}
-        key_is_arg = any(o.kind == "param" and o.ref >= 2 for o in g.trace_operand(idx[0].args[1]))
-        return from_order and bool(m1 & m2) and key_is_arg, "closure iterates get_transform_order(map)=%s over the same map=%s, indexing with its own argument=%s" % (from_order, bool(m1 & m2), key_is_arg)
-    return False, "indexing closure not found"
+    from ..query import iter_chain
+    idxs = [c for g in prog.family(f) for c in g.calls if c.name == "index" and "HashMap" in c.best and c.bb in g.live_blocks]
+    if not idxs:
+        return False, "no HashMap index found"
+    m2 = {(o.kind, o.ref if o.kind != "call" else id(o.ref)) for o in deep_roots(prog, f, go[0].args[1])}
+    msgs = []
+    for c in idxs:
+        g = c.fn
+        ad, lv = iter_chain(prog, g, c.args[1])
+        def reaches_go(ff, o):
+            if o.kind != "call":
+                return False
+            if o.ref is go[0]:
+                return True
+            return bool(o.ref.args) and o.ref.args[0][0] != "k" and any(o2.kind == "call" and o2.ref is go[0] for o2 in deep_roots(prog, ff, o.ref.args[0], TRANSPARENT | {"map_err"}))
+        from_order = any(reaches_go(ff, o) for ff, o in lv) or any(x[1] is go[0] for x in ad) or \
+            any(o.kind == "call" and o.ref is go[0] for ff, o in ultimate_roots(prog, g, c.args[1], TRANSPARENT | {"into_iter", "map_err", "next", "iter"}))
+        m1 = {(o.kind, o.ref if o.kind != "call" else id(o.ref)) for ff, o in ultimate_roots(prog, g, c.args[0]) if ff.id == f.id}
+        same_map = bool(m1 & m2)
+        msgs.append("key from get_transform_order(map)=%s, same map=%s" % (from_order, same_map))
+        if not (from_order and same_map):
+            return False, "; ".join(msgs)
+    return True, "every `map[key]` indexes the map that was given to get_transform_order with a key taken from its result (%s)" % "; ".join(msgs)
 
 
 @guard("combined_scan_index")
